@@ -42,31 +42,68 @@ type anchors struct {
 	fwd map[*ssa.Function]ssau.Forwarder // functions that only pass a packet on to writePacket
 }
 
-// packetWriteOf: in serialises a packet to m's output — writePacket(m.bitsWriter, pkt, …) itself, or a call on m of a method whose
-// whole body is that call on its own receiver (m.writeTSPacket(pkt)). It returns the call and the packet argument.
-func (a *anchors) packetWriteOf(in ssa.Instruction, m ssa.Value) (*ssa.Call, ssa.Value, bool) {
-	if c, ok := callTo(in, a.writePacket); ok {
-		if len(c.Call.Args) < 2 || !isLoadOf(c.Call.Args[0], m, a.fBitsWriter) {
-			return nil, nil, false
+// writePacketCall normalises a call that ends in writePacket: writePacket(w, pkt, size) itself, or a call of a function whose whole
+// body passes its arguments on to it (ssau.Forwarders). It returns the call, the writer and the packet as values of the calling
+// function; recvWriter reports that the writer is not an argument but the bitsWriter field of the forwarder's receiver, which
+// is then the call's first argument.
+func (a *anchors) writePacketCall(in ssa.Instruction) (c *ssa.Call, writer ssa.Value, recvWriter bool, pkt ssa.Value, ok bool) {
+	if d, isW := callTo(in, a.writePacket); isW {
+		if len(d.Call.Args) < 2 {
+			return nil, nil, false, nil, false
 		}
-		return c, c.Call.Args[1], true
+		return d, d.Call.Args[0], false, d.Call.Args[1], true
 	}
-	cc, ok := in.(*ssa.Call)
-	if !ok {
-		return nil, nil, false
+	cc, isCall := in.(*ssa.Call)
+	if !isCall {
+		return nil, nil, false, nil, false
 	}
 	if a.fwd == nil {
 		a.fwd = ssau.Forwarders(a.writePacket)
 	}
 	g := cc.Call.StaticCallee()
 	fw, isFw := a.fwd[g]
-	if !isFw || len(fw.Map) < 2 || fw.Map[1] < 0 || fw.Map[1] >= len(cc.Call.Args) || len(g.Params) == 0 || cc.Call.Args[0] != m {
+	if !isFw || len(fw.Map) < 2 || fw.Map[1] < 0 || fw.Map[1] >= len(cc.Call.Args) || fw.Inner.Call.StaticCallee() != a.writePacket {
+		return nil, nil, false, nil, false
+	}
+	switch {
+	case fw.Map[0] >= 0 && fw.Map[0] < len(cc.Call.Args):
+		return cc, cc.Call.Args[fw.Map[0]], false, cc.Call.Args[fw.Map[1]], true
+	case len(g.Params) > 0 && len(cc.Call.Args) > 0 && isLoadOf(fw.Inner.Call.Args[0], g.Params[0], a.fBitsWriter):
+		return cc, cc.Call.Args[0], true, cc.Call.Args[fw.Map[1]], true
+	}
+	return nil, nil, false, nil, false
+}
+
+// writePacketCalls lists the calls of f that end in writePacket (see writePacketCall).
+func (a *anchors) writePacketCalls(f *ssa.Function) []*ssa.Call {
+	var out []*ssa.Call
+	for _, b := range f.Blocks {
+		for _, in := range b.Instrs {
+			if c, _, _, _, ok := a.writePacketCall(in); ok {
+				out = append(out, c)
+			}
+		}
+	}
+	return out
+}
+
+// packetWriteOf: in serialises a packet to m's output — writePacket(m.bitsWriter, pkt, …) itself, or a call on m of a method whose
+// whole body is that call on its own receiver (m.writeTSPacket(pkt)). It returns the call and the packet argument.
+func (a *anchors) packetWriteOf(in ssa.Instruction, m ssa.Value) (*ssa.Call, ssa.Value, bool) {
+	c, w, recvW, pkt, ok := a.writePacketCall(in)
+	if !ok {
 		return nil, nil, false
 	}
-	if fw.Inner.Call.StaticCallee() != a.writePacket || !isLoadOf(fw.Inner.Call.Args[0], g.Params[0], a.fBitsWriter) {
+	if recvW {
+		if w != m {
+			return nil, nil, false
+		}
+		return c, pkt, true
+	}
+	if !isLoadOf(w, m, a.fBitsWriter) {
 		return nil, nil, false
 	}
-	return cc, cc.Call.Args[fw.Map[1]], true
+	return c, pkt, true
 }
 
 func getAnchors(p *load.Program) *anchors {
@@ -385,9 +422,12 @@ func (a *anchors) Summarize(f *ssa.Function) Summary {
 	}
 	// output buffer: writePacket(w, …) with w = NewBitsWriter(BitsWriterOptions{Writer: &m.<buf>})
 	bufs := map[*types.Var]bool{}
-	calls, _ := callsTo(f, a.writePacket)
-	for _, c := range calls {
-		bf, note := a.writerBuffer(c.Call.Args[0], m)
+	for _, c := range a.writePacketCalls(f) {
+		_, w, recvW, _, _ := a.writePacketCall(c)
+		if recvW {
+			continue // the muxer's output writer, not a table buffer
+		}
+		bf, note := a.writerBuffer(w, m)
 		if bf == nil {
 			s.OutNote = note
 			bufs[nil] = true
